@@ -39,6 +39,8 @@ type c07 struct {
 	w   *World
 	k   govkeeper.Keeper
 	ctx sdk.Context
+	forcePath string
+	paths bool // route edits through keeper / msg server / proposal handler at random
 }
 
 func (c *c07) addrIdx(a sdk.AccAddress) int {
@@ -178,9 +180,40 @@ func (c *c07) ruleVoter(i int, p uint32) bool {
 	return false
 }
 
-// op executes one keeper-level edit with message-cache semantics and records it.
+// op executes one edit with message-cache semantics and records it. While c.paths is set the edit goes, at random,
+// through one of the three ways the application offers for it: the keeper function itself, the message of the gov
+// msg server (sent by account 5, the sudo account, as long as it still holds the permission the message asks for), or
+// the content handler of the corresponding governance proposal through the real proposal router. The model line is the
+// same for all three: they must agree on success / failure and on the state they leave.
 func (c *c07) op(kind string, x, y uint64) bool {
 	ctx := c.ctx
+	path := "keeper"
+	if c.forcePath != "" {
+		path = c.forcePath
+		if path == "msg" {
+			need := govtypes.PermUpsertRole
+			if strings.HasSuffix(kind, "-acct") {
+				need = govtypes.PermSetPermissions
+			}
+			if !govkeeper.CheckIfAllowedPermission(ctx, c.k, c.w.addrs[5], need) {
+				path = "proposal"
+			}
+		}
+	} else if c.paths {
+		switch c.r.Rng.Intn(3) {
+		case 1:
+			path = "proposal"
+		case 2:
+			path = "msg"
+			need := govtypes.PermUpsertRole
+			if strings.HasSuffix(kind, "-acct") {
+				need = govtypes.PermSetPermissions
+			}
+			if !govkeeper.CheckIfAllowedPermission(ctx, c.k, c.w.addrs[5], need) {
+				path = "proposal"
+			}
+		}
+	}
 	err := withCache(ctx, func(cc sdk.Context) error {
 		k := c.k
 		actorOf := func(i uint64) govtypes.NetworkActor {
@@ -189,6 +222,65 @@ func (c *c07) op(kind string, x, y uint64) bool {
 				a = govtypes.NewDefaultActor(c.w.addrs[i])
 			}
 			return a
+		}
+		if path == "proposal" {
+			var content govtypes.Content
+			switch kind {
+			case "wl-acct":
+				content = govtypes.NewWhitelistAccountPermissionProposal(c.w.addrs[x], govtypes.PermValue(y))
+			case "bl-acct":
+				content = govtypes.NewBlacklistAccountPermissionProposal(c.w.addrs[x], govtypes.PermValue(y))
+			case "rm-wl-acct":
+				content = govtypes.NewRemoveWhitelistedAccountPermissionProposal(c.w.addrs[x], govtypes.PermValue(y))
+			case "rm-bl-acct":
+				content = govtypes.NewRemoveBlacklistedAccountPermissionProposal(c.w.addrs[x], govtypes.PermValue(y))
+			case "assign":
+				content = govtypes.NewAssignRoleToAccountProposal(c.w.addrs[x], fmt.Sprint(y))
+			case "unassign":
+				content = govtypes.NewUnassignRoleFromAccountProposal(c.w.addrs[x], fmt.Sprint(y))
+			case "wl-role":
+				content = govtypes.NewWhitelistRolePermissionProposal(fmt.Sprint(x), govtypes.PermValue(y))
+			case "bl-role":
+				content = govtypes.NewBlacklistRolePermissionProposal(fmt.Sprint(x), govtypes.PermValue(y))
+			case "rm-wl-role":
+				content = govtypes.NewRemoveWhitelistedRolePermissionProposal(fmt.Sprint(x), govtypes.PermValue(y))
+			case "rm-bl-role":
+				content = govtypes.NewRemoveBlacklistedRolePermissionProposal(fmt.Sprint(x), govtypes.PermValue(y))
+			default:
+				return fmt.Errorf("unknown op")
+			}
+			return k.GetProposalRouter().ApplyProposal(cc, 0, content, sdk.ZeroDec())
+		}
+		if path == "msg" {
+			ms := govkeeper.NewMsgServerImpl(k)
+			g := sdk.WrapSDKContext(cc)
+			me := c.w.addrs[5]
+			var e error
+			switch kind {
+			case "wl-acct":
+				_, e = ms.WhitelistPermissions(g, govtypes.NewMsgWhitelistPermissions(me, c.w.addrs[x], uint32(y)))
+			case "bl-acct":
+				_, e = ms.BlacklistPermissions(g, govtypes.NewMsgBlacklistPermissions(me, c.w.addrs[x], uint32(y)))
+			case "rm-wl-acct":
+				_, e = ms.RemoveWhitelistedPermissions(g, govtypes.NewMsgRemoveWhitelistedPermissions(me, c.w.addrs[x], uint32(y)))
+			case "rm-bl-acct":
+				_, e = ms.RemoveBlacklistedPermissions(g, govtypes.NewMsgRemoveBlacklistedPermissions(me, c.w.addrs[x], uint32(y)))
+			case "assign":
+				_, e = ms.AssignRole(g, govtypes.NewMsgAssignRole(me, c.w.addrs[x], uint32(y)))
+			case "unassign":
+				_, e = ms.UnassignRole(g, govtypes.NewMsgUnassignRole(me, c.w.addrs[x], uint32(y)))
+			case "wl-role":
+				_, e = ms.WhitelistRolePermission(g, govtypes.NewMsgWhitelistRolePermission(me, fmt.Sprint(x), uint32(y)))
+			case "bl-role":
+				_, e = ms.BlacklistRolePermission(g, govtypes.NewMsgBlacklistRolePermission(me, fmt.Sprint(x), uint32(y)))
+			case "rm-wl-role":
+				_, e = ms.RemoveWhitelistRolePermission(g, govtypes.NewMsgRemoveWhitelistRolePermission(me, fmt.Sprint(x), uint32(y)))
+			case "rm-bl-role":
+				_, e = ms.RemoveBlacklistRolePermission(g, govtypes.NewMsgRemoveBlacklistRolePermission(me, fmt.Sprint(x), uint32(y)))
+			default:
+				e = fmt.Errorf("unknown op")
+			}
+			return e
 		}
 		switch kind {
 		case "wl-acct":
@@ -220,6 +312,9 @@ func (c *c07) op(kind string, x, y uint64) bool {
 	}
 	c.r.Op(fmt.Sprintf("perm %s %d %d", kind, x, y), out)
 	c.r.Count(kind + ":" + out)
+	if c.paths || c.forcePath != "" {
+		c.r.Count("path:" + path + ":" + out)
+	}
 	return err == nil
 }
 
@@ -254,7 +349,7 @@ func (c *c07) observe(nAcc int, roles []uint64, perms []uint32, tag string) {
 
 func runC07(r *Rec) {
 	const nAcc = 5
-	w := NewWorld(WorldOpts{NAcc: nAcc, NVal: 1})
+	w := NewWorld(WorldOpts{NAcc: nAcc + 1, NVal: 1, SudoAccs: []int{nAcc}}) // account 5: the sender of the permission messages
 	c := &c07{r: r, w: w, k: w.app.CustomGovKeeper, ctx: w.KeeperCtx()}
 	k := c.k
 	perms := []uint32{uint32(govtypes.PermSetPermissions), uint32(govtypes.PermUpsertRole), uint32(govtypes.PermChangeTxFee), 41, 42}
@@ -276,6 +371,19 @@ func runC07(r *Rec) {
 			r.Op(fmt.Sprintf("perm bl-role %d %d", id, p), "ok")
 		}
 	}
+	for i := 0; i <= nAcc; i++ {
+		if a, ok := k.GetNetworkActorByAddress(c.ctx, w.addrs[i]); ok {
+			for _, ro := range a.Roles {
+				r.Op(fmt.Sprintf("perm assign %d %d", i, ro), "ok")
+			}
+			for _, p := range a.Permissions.Whitelist {
+				r.Op(fmt.Sprintf("perm wl-acct %d %d", i, p), "ok")
+			}
+			for _, p := range a.Permissions.Blacklist {
+				r.Op(fmt.Sprintf("perm bl-acct %d %d", i, p), "ok")
+			}
+		}
+	}
 	c.observe(nAcc, roles, perms, "genesis")
 
 	// ---- 1. random edit histories
@@ -284,6 +392,7 @@ func runC07(r *Rec) {
 		n = 6000
 	}
 	r.Mark("random edit histories")
+	c.paths = true
 	kinds := []string{"wl-acct", "bl-acct", "rm-wl-acct", "rm-bl-acct", "assign", "unassign", "wl-role", "bl-role", "rm-wl-role", "rm-bl-role", "create-role"}
 	for i := 0; i < n; i++ {
 		kind := kinds[r.Rng.Intn(len(kinds))]
@@ -315,6 +424,7 @@ func runC07(r *Rec) {
 		}
 	}
 	c.observe(nAcc, roles, perms, "end of history")
+	c.paths = false
 
 	// ---- 2. exhaustive small scope: one actor (acct 4), roles A,B assigned or not, two permissions,
 	// each of (own, role A, role B) ∈ {none, wl, bl} per permission
@@ -388,9 +498,50 @@ func runC07(r *Rec) {
 		r.Case(fmt.Sprintf("scope/%d", cfg), true)
 		cfgN++
 	}
+	// ---- 2b. every ordered pair of edits on one subject (acct 4, role A, permission 61), role A assigned or not, the
+	// second edit through each of the three paths (keeper function, message, proposal content handler)
+	r.Mark("edit pairs x paths")
+	argsOf := func(kind string) (uint64, uint64) {
+		switch kind {
+		case "wl-acct", "bl-acct", "rm-wl-acct", "rm-bl-acct":
+			return 4, 61
+		case "assign", "unassign":
+			return 4, ra
+		}
+		return ra, 61
+	}
+	pairKinds := []string{"wl-acct", "bl-acct", "rm-wl-acct", "rm-bl-acct", "assign", "unassign", "wl-role", "bl-role", "rm-wl-role", "rm-bl-role"}
+	pairN := 0
+	for _, pre := range []bool{false, true} {
+		for i1, k1 := range pairKinds {
+			for i2, k2 := range pairKinds {
+				for pi, path := range []string{"keeper", "msg", "proposal"} {
+					if r.Tier != "thorough" && (i1+i2+pi+int(r.Seed))%2 != 0 && !(k1 == "wl-acct" || k1 == "wl-role" || k1 == "bl-acct" || k1 == "bl-role") {
+						continue // quick tier: half of the pairs whose first edit only removes, all pairs whose first edit adds
+					}
+					cc, _ := base.CacheContext()
+					c.ctx = cc
+					r.Op("perm restore", "ok")
+					if pre {
+						c.op("assign", 4, ra)
+					}
+					x1, y1 := argsOf(k1)
+					c.op(k1, x1, y1)
+					c.forcePath = path
+					x2, y2 := argsOf(k2)
+					ok := c.op(k2, x2, y2)
+					c.forcePath = ""
+					c.observe(nAcc, []uint64{ra}, []uint32{61}, fmt.Sprintf("pair %v/%s/%s via %s", pre, k1, k2, path))
+					r.Case(fmt.Sprintf("pair/%v/%s/%s/%s/%v", pre, k1, k2, path, ok), true)
+					pairN++
+				}
+			}
+		}
+	}
 	c.ctx = base
 	r.Op("perm restore", "ok")
 	r.Extra["small_scope_configs"] = cfgN
+	r.Extra["edit_pairs"] = pairN
 
 	// ---- 3. gated messages: with and without the permission, through the real msg server
 	r.Mark("gated messages")
@@ -440,7 +591,7 @@ func runC07(r *Rec) {
 			// a proposal of that type submitted by the sudo account; the vote option alternates so that a repeated vote
 			// really changes the stored one
 			if gatePid == 0 {
-				m, _ := govtypes.NewMsgSubmitProposal(w.addrs[0], "t", "d", govtypes.NewSetNetworkPropertyProposal(govtypes.MinIdentityApprovalTip, govtypes.NetworkPropertyValue{Value: 3999}))
+				m, _ := govtypes.NewMsgSubmitProposal(w.addrs[5], "t", "d", govtypes.NewSetNetworkPropertyProposal(govtypes.MinIdentityApprovalTip, govtypes.NetworkPropertyValue{Value: 3999}))
 				res, e := ms.SubmitProposal(sdk.WrapSDKContext(cc), m)
 				if e != nil {
 					return fmt.Errorf("gate set-up: %v", e)
